@@ -77,8 +77,8 @@ def run(out, tier, rng, work):
                 'legitimate transaction has the result of the undisturbed run, the application is asked exactly once and only for the '
                 'legitimate request, every answer to the intruder is a DM15 failed/busy addressed to it, no data goes to it; item-level '
                 'correspondence of the guard decision; non-trivial = every injection case')
-    out.assumptions = ['A1-A6 of DESIGN.md section 3', 'the three DM14 state machines are not modelled in Coq: the guard decision, the frame layouts and the key gate are; the interleavings are enumerated on the real code (testing)']
-    out.extra['partial'] = ['T19.2/T19.3 (routing per facade state, induction over positions) not proved: enumerated exhaustively on the real code']
+    out.assumptions = ['A1-A6 of DESIGN.md section 3', 'the serving side (DM14Server + serving half of MemoryAccess + the CA subscriber list) is modelled as a state machine (theories/Dm14Srv.v) and tied to the code by operation-sequence correspondence; the client (Dm14Query) and the transport under ca.send_pgn are not: transactions end to end are run on the real code (testing)']
+    out.extra['partial'] = ['the running-transaction phases are characterised by the predicate running (server state, facade state); that every reachable state between the first DM14 and the closing DM14 satisfies it is shown by evaluation on transaction shapes (Example) and by the intruder enumeration on the real code, not by an inductive invariant']
     C.std_proof_stage(out, 'C19', FILES)
     total, mism, errors = items.run_items(ITEMS, rng, 300 if tier == 'quick' else 3000, work, C)
     out.traces_validated = total
@@ -86,6 +86,8 @@ def run(out, tier, rng, work):
         out.broken.append('item correspondence %s did not evaluate: %s' % (e[0], e[1][-200:]))
     for m in mism[:20]:
         out.broken.append('correspondence %s: model and implementation differ on input %s (impl %s)' % (m[0], m[1][:14], m[2][:14]))
+    import dm14srv
+    dm14srv.stage(out, tier, rng, work, C)
     worst = {}
     for sc0 in shapes(rng):
         for sc, res, base in cases(sc0):
